@@ -280,7 +280,7 @@ def classify(name, desc):
 
 
 def cbmc(gb, cwd, oid, function, route_note='', checks=CBMC_CHECKS, solver=None, unwind=None, timeout=600, extra=(), bound=None,
-         expect_fail=(), need=(), mem_gb=16, object_bits=None):
+         expect_fail=(), need=(), mem_gb=16, object_bits=None, _rerun=False):
     """run cbmc on an instrumented binary; returns list of Ob.
 
     bound: None => results count as proved (every loop closed by a contract or constant-bounded with unwinding assertions)
@@ -344,11 +344,19 @@ def cbmc(gb, cwd, oid, function, route_note='', checks=CBMC_CHECKS, solver=None,
     if unknown and not any(o['status'] == REFUTED for o in obs):
         for name, desc, st in unknown:
             obs.append(Ob('%s/%s' % (oid, name), function, desc, 'CCV', backend, UNDECIDED, wall, 'cbmc status %s' % st, log=log))
+    elif unknown and not _rerun:
+        # cbmc leaves obligations that lie behind a failed one undetermined: decide them in a second run restricted to exactly those
+        # properties (otherwise a failure listed as a known finding could hide a new violation in the same harness)
+        sub = cbmc(gb, cwd, oid, function, route_note, checks, solver, unwind, max(60, timeout), tuple(extra) + tuple(x for nm, _, _ in unknown for x in ('--property', nm)),
+                   bound, (), (), mem_gb, object_bits, _rerun=True)
+        for o in sub:
+            if o['status'] in (PROVED, BOUNDED):
+                groups.setdefault(o['id'].rsplit('/', 1)[-1] + '(2nd run)', []).extend(['x'] * int(o.get('count', 1)))
+            elif not o['id'].endswith('/empty'):
+                obs.append(o)
     elif unknown:
-        # cbmc leaves obligations that lie behind a failed one undetermined; they are reported with the failure, not separately
-        for o in obs:
-            if o['status'] == REFUTED:
-                o['detail'] += ' (%d further obligations left UNKNOWN by cbmc behind the failures)' % len(unknown)
+        for name, desc, st in unknown:
+            obs.append(Ob('%s/%s' % (oid, name), function, desc, 'CCV', backend, UNDECIDED, wall, 'cbmc status %s in the restricted second run' % st, log=log))
     for c in expect_fail:
         if c not in canaries_hit:
             obs.append(Ob('%s/canary' % oid, function, 'canary /%s/ must fail' % c, 'CCV', backend, UNDECIDED, wall,
